@@ -664,9 +664,10 @@ def run(ck, only_cases=None):
                        "the API path; ROM model on the CLI output = content of the configuration; non-trivial = distinct case")
         for i in range(ck.budget(8, 80)):
             check_config_path(ck, drv, sc, chains, i)
-        sb = ck.stream("cli_path", "generated BD command files (1..3 sections with explicit ids; load from named / extern sources, word "
-                       "fill, ranged byte fill, erase, enable, version_check, jump, call, reset, load fuse, `keywrap`, `encrypt` with an "
-                       "enabled and a disabled key blob; all options incl. dek/mac/nonce/timestamp) through click's CliRunner: "
+        sb = ck.stream("cli_path", "generated BD command files (1..3 sections with explicit ids; load from named / extern sources with and "
+                       "without memory id, word fill, ranged .b/.h/.w fill, erase range / all with and without memory id, enable, "
+                       "version_check, jump / jump_sp / call with argument, reset, load fuse, keystore_to_nv / keystore_from_nv, `keywrap`, "
+                       "`encrypt` with an enabled, a disabled and a byte-swapping key blob; all options incl. dek/mac/nonce/timestamp) through click's CliRunner: "
                        "`nxpimage sb21 export -c x.bd -k -s -S -R -h` -> the ROM model accepts the file and reports the content of the BD "
                        "file (keywrap: the LOAD unwraps under the OTFAD KEK to key/counter/start/flags of the key blob; encrypt: the LOAD "
                        "decrypts to the source data); `nxpimage sb21 parse` on that file writes exactly the LOAD data / certificates and "
@@ -815,11 +816,34 @@ def gen_bd_cmd(rng, nsrc):
     """(BD statement, expectation).  Expectation: a command spec of the API path (`exp_view` gives the loader's view) with,
     for keywrap / encrypt, a 7th element describing what the LOAD data must be."""
     a = lambda: rng.choice([0, 0x10, 0x1000, 0x20001000, 0x80000000, 0xFFFFFFF0, rng.getrandbits(32) & ~3, rng.getrandbits(16)])  # noqa: E731
-    k = rng.choice(["L", "L", "FW", "FB", "E", "M", "V", "J", "C", "R", "P", "KW", "EN", "EN"])
+    k = rng.choice(["L", "L", "LM", "FW", "FB", "FH", "FR", "E", "EM", "EA", "M", "V", "J", "JA", "JS", "C", "CA", "R", "P", "KT", "KF",
+                    "KW", "KW", "EN", "EN", "EN"])
     if k == "L":
         i = rng.randrange(nsrc)
         ad = a()
         return f"load src{i} > {ad:#x};", ["L", ad, 0, 0, None, None, ("src", i)]
+    if k == "LM":
+        i, ad, m = rng.randrange(nsrc), a(), rng.choice([9, 8, 1, 0x10, 0x101, 0x120])
+        return f"load @{m:#x} src{i} > {ad:#x};", ["L", ad, m, 0, None, None, ("src", i)]
+    if k in ("FH", "FR"):
+        ad, n = rng.choice([0, 0x1000, 0x20000000, 0xFFFF0000]), 4 * rng.choice([1, 1, 4, 0x40, rng.randrange(1, 0x1000)])
+        pat = rng.choice([0x1122, 0x100, 0xFFFF, 0x100 + rng.getrandbits(15)]) if k == "FH" else rng.choice([0x11223344, 0x1000000, 0xFFFFFFFF, rng.getrandbits(32) | 0x1000000])
+        return f"load {pat:#x}.{'h' if k == 'FH' else 'w'} > {ad:#x}..{ad + n:#x};", ["F", ad, pat, n]
+    if k == "EM":
+        ad, n, m = rng.choice([0, 0x8000000, 0x10000]), rng.choice([1, 0x1000, 0x10000, rng.getrandbits(24) + 1]), rng.choice([9, 8, 1, 0x101, 0x110])
+        return f"erase @{m:#x} {ad:#x}..{ad + n:#x};", ["E", ad, n, 0, m]
+    if k == "EA":
+        m = rng.choice([0, 0, 9, 0x101])
+        return (f"erase @{m:#x} all;" if m else "erase all;"), ["E", 0, 0, 1, m]
+    if k in ("JA", "JS"):
+        ad, arg, sp = a(), rng.choice([0, 0x55, 0xFFFFFFFF, rng.getrandbits(32)]), rng.choice([0x20008000, 0x20000000, rng.getrandbits(32) & ~7])
+        return (f"jump {ad:#x} ({arg:#x});", ["J", ad, arg, None]) if k == "JA" else (f"jump_sp {sp:#x} {ad:#x} ({arg:#x});", ["J", ad, arg, sp])
+    if k == "CA":
+        ad, arg = a(), rng.choice([1, 0x55, 0xFFFFFFFF, rng.getrandbits(32)])
+        return f"call {ad:#x} ({arg:#x});", ["C", ad, arg]
+    if k in ("KT", "KF"):
+        ad, m = a(), rng.choice(EXT_MEM_IDS)
+        return f"keystore_{'to' if k == 'KT' else 'from'}_nv @{m:#x} {ad:#x};", [k, ad, m]
     if k == "FW":
         ad, pat = a(), rng.choice([0xC1503057, 0x20000000, 0x01000000, 0xFFFFFFFF, 0x1000000 + rng.getrandbits(24), rng.getrandbits(32) | 0x1000000])
         return f"load {pat:#x} > {ad:#x};", ["F", ad, pat, 4]
@@ -933,7 +957,7 @@ def cli_cmd_ok(text, sp, srcs):
 def bd_exp_view(sp, srcs):
     if sp[0] == "L":
         d = srcs[sp[6][1]]
-        return f"load({sp[1]},0,{hexs(d if not LOAD_PADDED else pad16(d))})"
+        return f"load({sp[1]},{mem_bits(sp[2])},{hexs(d if not LOAD_PADDED else pad16(d))})"
     return exp_view(sp)
 
 
@@ -1060,8 +1084,9 @@ def _check_cli_path(ck, drv, s, chains, idx, tmp, rng, CliRunner, nxpimage):
                 n = f"section_{si}_load_command_{ci}_data.bin"
                 want_names.append(n)
                 d = pyres(lambda: open(os.path.join(pdir, n), "rb").read())
-                text = f"load({sp[1]},0,{hexs(d[1])})" if d[0] == "ok" else "missing"
-                if bad is None and not cli_cmd_ok(text, sp, srcs) and not (d[0] == "ok" and not LOAD_PADDED and cli_cmd_ok(f"load({sp[1]},0,{hexs(d[1][:sp[4]])})", sp, srcs)):
+                fl = mem_bits(sp[2])
+                text = f"load({sp[1]},{fl},{hexs(d[1])})" if d[0] == "ok" else "missing"
+                if bad is None and not cli_cmd_ok(text, sp, srcs) and not (d[0] == "ok" and not LOAD_PADDED and cli_cmd_ok(f"load({sp[1]},{fl},{hexs(d[1][:sp[4]])})", sp, srcs)):
                     bad = [n, sc["bd"][ci]]
         certs_ok = all(pyres(lambda: open(os.path.join(pdir, f"certificate_{k}_der.cer"), "rb").read()) == ("ok", open(p, "rb").read())
                        for k, p in enumerate(ch.cert_paths))
@@ -1102,15 +1127,18 @@ def _check_cli_path(ck, drv, s, chains, idx, tmp, rng, CliRunner, nxpimage):
             # random by design: 4 bytes inside a wrapped key blob; LOAD padding of `encrypt` with a disabled key blob
             rnd = "kw" in kinds or any(len(c) > 6 and c[6][0] == "enc" and KEYBLOBS[c[6][1]]["end"] & 3 != 3 and c[4] % 16
                                         for sc in case["sections"] for c in sc["cmds"])
-            # open finding C04-convert-fill-length: the YAML schema has no `length` for `fill`, `convert` drops it.  Predicate
-            # from the INPUT alone: the BD file holds a ranged fill whose length is not the default 4.
-            lossy = any(c[0] == "F" and c[3] != 4 for sc in case["sections"] for c in sc["cmds"])
+            # open finding C04-convert-drops-options: the YAML schema has no `length` for `fill` and no `byteSwap` for a key blob;
+            # `convert` (CommentedConfig) writes schema properties only.  Predicate from the INPUT alone: the BD file holds a
+            # ranged fill whose length is not the default 4, or an `encrypt` that uses an enabled key blob with byteSwap.
+            lossy = any((c[0] == "F" and c[3] != 4) or
+                        (len(c) > 6 and c[6][0] == "enc" and KEYBLOBS[c[6][1]].get("byteSwap") and KEYBLOBS[c[6][1]]["end"] & 3 == 3)
+                        for sc in case["sections"] for c in sc["cmds"])
             weak = f2[0] == "ok" and len(f2[1]) == len(file) and f2[1][:96] == file[:96]
             s.expect(weak, shown, "`nxpimage sb21 convert` + `export` of the converted YAML: no file, or one of different size / header than "
                      "`export` of the BD file", _bdiff(f2, ("ok", file)))
             if weak and not rnd:
                 s.expect(f2[1] == file, shown, "`nxpimage sb21 convert` + `export` of the converted YAML gives a different file than `export` of "
-                         "the BD file", _bdiff(f2, ("ok", file)), finding="C04-convert-fill-length" if lossy else None)
+                         "the BD file", _bdiff(f2, ("ok", file)), finding="C04-convert-drops-options" if lossy else None)
 
 
 def check_kek_len(ck, drv, s, case, chains, BootImageV20, BootImageV21):
@@ -1336,6 +1364,9 @@ def check_image(ck, drv, s, st, case, chains, n_flip, BootImageV20, BootImageV21
                 # theorems header_mac_byte_tampered_v21 / sha_byte_tampered_v21: refused with exactly this verdict
                 st.compare(inp, "E:rom:badHeaderMac" if name == "header_mac" else "E:rom:badSha", ans[:40],
                            "compiled ROM model vs the theorems on a flipped bit in the header-MAC / SHA-256 field of an SB 2.1 file")
+            if (not v21) and name == "header_mac":
+                st.compare(inp, "E:rom", ans[:5], "compiled ROM model vs the theorem header_mac_byte_tampered_v20: a flipped bit in the "
+                           "header-MAC field of an SB 2.0 file is refused")
             if ans.startswith("ok:"):
                 f = rom_fields(ans)
                 ob = verify_obligation(f2, f)
